@@ -55,6 +55,8 @@ def main():
     a = ap.parse_args()
     seed = int(os.environ.get('VERIF_SEED', '0') or 0)
     t0 = time.time()
+    if a.prop == 'C05':
+        return main_c05(a, seed, t0)
     units = specmod.load_all(os.path.join(VERIF, 'contracts'))
     mine = [n for n, u in units.items() if a.prop in u.get('properties', []) and u.get('kind') != 'stub']
     if a.tier == 'quick':
@@ -138,6 +140,66 @@ def main():
         print('OK property=%s units=%d obligations=%d discharged=%d wall=%.0fs' % (
             a.prop, len(mine), tot, sum(results[n].get('discharged', 0) for n in mine), wall))
     sys.exit(rc)
+
+
+def main_c05(a, seed, t0):
+    """C05 is decided over a mechanical slice of ALL Sync bodies and enumerators (tools/c05.py), one CBMC run"""
+    import c05
+    res, obs, rep = c05.run_check(a.tier)
+    print('[C05] %-52s %-9s %5d/%-5d %6.1fs %s' % ('slice of %d Sync bodies' % rep.get('classes_with_sync', 0), res['status'], res['discharged'], res['obligations'], res['solver_s'], res['reason'].split('\n')[0][:120]), flush=True)
+    known = [k for k in load_known() if k['property'] == 'C05']
+    rc = 0
+    kn_hits = []
+    viol = []
+    if res['status'] == 'refuted':
+        for fo in res['failed']:
+            k = [x for x in known if re.search(x['obligation'], fo['obligation'])]
+            (kn_hits if k else viol).append((k[0] if k else None, fo))
+    wall = time.time() - t0
+    replay = None
+    if viol:
+        d = os.path.join(driver.WORK, 'replay')
+        os.makedirs(d, exist_ok=True)
+        replay = os.path.join(d, 'C05_slice.txt')
+        ctext = open(res['c_file']).read()
+        with open(replay, 'w') as f:
+            f.write('property: C05\nfailed obligations (refuted by CBMC, loop-free: the refutation stands):\n')
+            for _, fo in viol:
+                f.write('  %s -- %s\n' % (fo['obligation'], fo['text']))
+                fn = fo['obligation'].split('.')[0]
+                m = re.search(r'void %s\(void\)\n\{.*?\n\}' % re.escape(fn), ctext, re.S)
+                if m:
+                    f.write('    slice (serialised side vs enumerated side, conditions over version / members):\n' + '\n'.join('      ' + l for l in m.group(0).split('\n')) + '\n')
+            f.write('\nverifier output with counterexample valuation:\n' + open(res['cbmc_log']).read()[-20000:])
+    ev = {'property_id': 'C05', 'tier': a.tier, 'seed': seed, 'level': 'proof',
+          'coverage': {'obligations': res['obligations'], 'discharged': res['discharged'] + len(kn_hits) * 0,
+                       'checker_cmd': 'python3 tools/check.py C05  (tools/c05.py: clang AST of %d TUs -> slice -> goto-cc; cbmc)' % len(c05.TUS),
+                       'trusted_base': ['clang 14 JSON AST', 'tools/c05.py slicing rules (which statements serialise / enumerate a reference member; loops = all elements; early returns)', 'class heads of include/*.hpp for the base-class chain', 'CBMC 6.11, MiniSat'],
+                       'explanation': 'one obligation per (class, reference-bearing member): for every version, member valuation and element index, serialised => enumerated by GetChildRefs/GetPtrs (block refs) or GetStringRefs (string refs) of the class or a base class; and reported by GetChildRefs => reported by GetChildIndices',
+                       'classes_with_sync': rep.get('classes_with_sync'), 'classes_with_enumerators': rep.get('classes_with_enumerators'),
+                       'plain_structs_expanded_into_owners': rep.get('plain_structs_expanded_into_owners'),
+                       'classes_listed_as_unchecked': rep.get('unchecked'), 'opaque_conditions': rep.get('opaque_conditions'),
+                       'samples': [{'obligation': o['name'], 'class': o['class'], 'member': o['member'], 'kind': o['kind']} for o in obs[:8]],
+                       'refuted': [fo['obligation'] for _, fo in viol], 'known_findings_hit': [fo['obligation'] for _, fo in kn_hits],
+                       'not_covered': ['references serialised through raw stream.Sync(x.index) or hidden in switch-dispatched sub-structures of the classes listed as unchecked', 'that the enumerators are CALLED by every block-graph operation (C06 covers the operations)', 'NiUnknown payloads']},
+          'assumptions': ['the slice is trusted: a statement shape the slicer does not recognise is either listed (unchecked classes) or, for conditions, replaced by a nondeterministic boolean shared between both sides when the expression is identical',
+                          'write mode: members read in conditions have the same value in Sync and in the enumerators'],
+          'wall_s': round(wall, 1), 'violations': len(viol)}
+    evdir = os.environ.get('VERIF_EVIDENCE_DIR') or os.path.join(VERIF, 'evidence')
+    os.makedirs(evdir, exist_ok=True)
+    json.dump(ev, open(os.path.join(evdir, 'C05.json'), 'w'), indent=1)
+    for k, fo in kn_hits:
+        print('KNOWN-FINDING: property=C05 obligation=%s %s' % (fo['obligation'], k['text']))
+    if viol:
+        print('VIOLATION property=C05 replay=%s no-failing-input-found' % replay)
+        for _, fo in viol:
+            print('  failed obligation: %s -- %s' % (fo['obligation'], fo['text']))
+        sys.exit(1)
+    if res['status'] == 'undecided':
+        print('UNDECIDED property=C05 reason=%s' % res['reason'].replace('\n', ' | ')[:500])
+        sys.exit(2)
+    print('OK property=C05 obligations=%d discharged=%d known_findings=%d wall=%.0fs' % (res['obligations'], res['discharged'], len(kn_hits), wall))
+    sys.exit(0)
 
 
 def write_evidence(a, seed, units, mine, results, violations, undecided, known_hits, wall):
